@@ -30,6 +30,7 @@ fn gate(p: &Partial, t: Tier) -> Result<(), String> {
     super::need(p, "junk:non-utf8", 1000)?;
     super::need(p, "recording-excerpt", 100)?;
     super::need(p, "sweep-cadence", 100)?;
+    super::need(p, "buffer-boundary-junk", 500)?;
     Ok(())
 }
 
@@ -114,7 +115,8 @@ fn check_file(ctx: &mut Ctx, cfg: &Cfg, sname: &str, stream: &[Vec<u8>], clean: 
             &format!("C13/file/{}", cfg.label()),
             &format!("{sname} + {}", desc.join(", ")),
             || format!("stream {sname} with junk line(s) {}: reader {}, table has {} row(s) {:X?}, clean stream gives {} row(s) {:X?}", desc.join(", "), o.label(), got.len(), got.iter().map(|r| r.key).collect::<Vec<_>>(), clean.len(), clean.iter().map(|r| r.key).collect::<Vec<_>>()),
-            || json!({"kind": "file", "stream": stream.iter().map(|l| String::from_utf8_lossy(l).into_owned()).collect::<Vec<_>>(), "ins": ins, "cfg": cfg.opts}),
+            || json!({"kind": "file", "stream": stream.iter().map(|l| String::from_utf8_lossy(l).into_owned()).collect::<Vec<_>>(), "ins": ins, "cfg": cfg.opts,
+                "custom_junk": if junk.len() == 1 { Some(json!({"fill": junk[0].1.first(), "len": junk[0].1.len(), "crlf": junk[0].1.last() == Some(&b'\r')})) } else { None }}),
         );
     }
 }
@@ -253,6 +255,37 @@ fn run(ctx: &mut Ctx) {
             }
         }
     }
+    // junk lines whose length sits exactly on, just below and just above typical buffer sizes
+    // (with LF and with CR LF), followed by accepted lines
+    {
+        let stream: Vec<Vec<u8>> = vec![vf[0].clone(), vf[5].clone(), vf[2].clone()];
+        let (_, clean) = run_clean(&cfg, &stream);
+        let mut sizes: Vec<usize> = vec![];
+        for p in [4096usize, 8192, 16384, 32768, 65536, 131072] {
+            for d in [-3i64, -2, -1, 0, 1, 2] {
+                sizes.push((p as i64 + d) as usize);
+            }
+        }
+        for (k, n) in sizes.iter().enumerate() {
+            job += 1;
+            if !ctx.mine(job) {
+                continue;
+            }
+            for fill in [b'A', b'z', 0xFFu8] {
+                for crlf in [false, true] {
+                    let mut j = vec![fill; *n];
+                    if crlf {
+                        j.push(b'\r');
+                    }
+                    let custom = vec![("buffer-size junk", j)];
+                    for pos in 0..=stream.len() {
+                        ctx.count("buffer-boundary-junk");
+                        check_file(ctx, &cfg, &format!("len{n}#{k}"), &stream, &clean, &[(pos, 0)], &custom);
+                    }
+                }
+            }
+        }
+    }
     for (name, stream) in excerpts() {
         job += 1;
         if !ctx.mine(job) {
@@ -275,7 +308,17 @@ fn run(ctx: &mut Ctx) {
 }
 
 fn replay(ctx: &mut Ctx, case: &Value) {
-    let junk = junk_alphabet();
+    let mut junk = junk_alphabet();
+    if let Some(c) = case.get("custom_junk").filter(|c| !c.is_null()) {
+        let len = c.get("len").and_then(|x| x.as_u64()).unwrap_or(0) as usize;
+        let fill = c.get("fill").and_then(|x| x.as_u64()).unwrap_or(65) as u8;
+        let crlf = c.get("crlf").and_then(|x| x.as_bool()).unwrap_or(false);
+        let mut j = vec![fill; if crlf { len - 1 } else { len }];
+        if crlf {
+            j.push(b'\r');
+        }
+        junk = vec![("buffer-size junk", j)];
+    }
     let stream: Vec<Vec<u8>> = case.get("stream").and_then(|s| s.as_array()).map(|a| a.iter().filter_map(|x| x.as_str().map(|s| s.as_bytes().to_vec())).collect()).unwrap_or_default();
     let ins: Vec<(usize, usize)> = case.get("ins").and_then(|s| s.as_array()).map(|a| a.iter().filter_map(|x| Some((x.get(0)?.as_u64()? as usize, x.get(1)?.as_u64()? as usize))).collect()).unwrap_or_default();
     let opts: Vec<String> = case.get("cfg").and_then(|c| c.as_array()).map(|a| a.iter().filter_map(|x| x.as_str().map(String::from)).collect()).unwrap_or_default();
